@@ -181,5 +181,49 @@ def minimise(check, batch, scn: Dict[str, Any], v: Dict[str, Any], budget_s: flo
                                 cand[key][i][fld] = simple
                             if attempt(cand):
                                 progress = True
+    # 5. drop what is no longer referenced: config entries, scripts of agents that do not exist, idle probes
+    cand = cleanup(best)
+    if cand is not None and time.time() < t_end + 10:
+        vv = test(cand)
+        if vv is not None:
+            best, best_v = cand, vv
     best.setdefault("meta", {})["shrink_runs"] = runs[0]
     return best, best_v
+
+
+def cleanup(scn):
+    cfg = scn.get("config")
+    if not isinstance(cfg, dict) or not isinstance(cfg.get("simulation"), dict):
+        return None
+    sim = cfg["simulation"]
+    used = set()
+    roots = list(sim.get("markets", [])) + list(sim.get("agents", []))
+    for s_ in sim.get("sessions", []):
+        if isinstance(s_, dict):
+            roots += list(s_.get("events", []) or [])
+    stack = [r for r in roots if isinstance(r, str)]
+    while stack:
+        k = stack.pop()
+        if k in used or k not in cfg:
+            continue
+        used.add(k)
+        v = cfg[k]
+        if isinstance(v, dict) and isinstance(v.get("extends"), str):
+            stack.append(v["extends"])
+    out = copy.deepcopy(scn)
+    changed = False
+    for k in list(out["config"].keys()):
+        if k != "simulation" and k not in used:
+            del out["config"][k]
+            changed = True
+    if isinstance(out.get("scripts"), dict):
+        for name in list(out["scripts"].keys()):
+            if not out["scripts"][name]:
+                del out["scripts"][name]
+                changed = True
+    if isinstance(out.get("probes"), dict):
+        for name in list(out["probes"].keys()):
+            if name not in used:
+                del out["probes"][name]
+                changed = True
+    return out if changed else None
